@@ -132,13 +132,26 @@ static std::string gen_token(Rng& r, const Opt& o) {
     return "0";
 }
 
-struct Placement { std::string name, token; bool on_cli; };   // name may be an alias (file only)
+struct Placement { std::string name, token; bool on_cli; char form = 'L'; };   // name may be an alias (file only); form: L long, S short (-N), B bare flag (-v)
+
+// short command-line forms of the options that have one
+static const char* short_form(const std::string& n) {
+    static const std::map<std::string, const char*> m = {
+        {"SynchrotronFrequency", "-f"}, {"RevolutionFrequency", "-F"}, {"DampingTime", "-d"}, {"HarmonicNumber", "-H"}, {"InitialDistFile", "-i"},
+        {"BunchCurrent", "-I"}, {"BendingRadius", "-R"}, {"BeamEnergy", "-E"}, {"BeamEnergySpread", "-e"}, {"Impedance", "-Z"}, {"VacuumGap", "-G"},
+        {"AcceleratingVoltage", "-V"}, {"output", "-o"}, {"outstep", "-n"}, {"verbose", "-v"}, {"StepsPerTs", "-N"}, {"padding", "-p"},
+        {"PhaseSpaceSize", "-P"}, {"GridSize", "-s"}, {"rotations", "-T"}};
+    auto i = m.find(n);
+    return i == m.end() ? nullptr : i->second;
+}
 
 static std::vector<std::string> argv_of(const std::vector<Placement>& pl, const std::string& cfgfile) {
     std::vector<std::string> a;
     for (auto& p : pl) if (p.on_cli) {
-        a.push_back("--" + p.name);
         const Opt* o = find_opt(p.name);
+        const char* sf = short_form(p.name);
+        if (p.form == 'B' && o && o->type == T::boolean && canon(*o, p.token) == "1" && p.name == "verbose") { a.push_back(sf && p.token.size() % 2 ? sf : "--verbose"); continue; }
+        a.push_back((p.form == 'S' && sf) ? std::string(sf) : "--" + p.name);
         if (o && o->type == T::vec) { for (auto& t : split(p.token, ' ')) if (!t.empty()) a.push_back(t); }
         else a.push_back(p.token);
     }
@@ -156,13 +169,13 @@ static std::string file_of(const std::vector<Placement>& pl) {
 }
 static void plan_put(Plan& p, const std::vector<Placement>& pl) {
     p.seti("npl", (long)pl.size());
-    for (size_t i = 0; i < pl.size(); i++) { p.set("pl" + std::to_string(i), std::string(pl[i].on_cli ? "C" : "F") + "|" + pl[i].name + "|" + pl[i].token); }
+    for (size_t i = 0; i < pl.size(); i++) { p.set("pl" + std::to_string(i), std::string(pl[i].on_cli ? (pl[i].form == 'S' ? "S" : pl[i].form == 'B' ? "B" : "C") : "F") + "|" + pl[i].name + "|" + pl[i].token); }
 }
 static std::vector<Placement> plan_get(const Plan& p) {
     std::vector<Placement> pl;
     for (long i = 0; i < p.geti("npl"); i++) {
         auto f = split(p.get("pl" + std::to_string(i)), '|');
-        if (f.size() >= 3) pl.push_back({f[1], f[2], f[0] == "C"});
+        if (f.size() >= 3) { Placement q{f[1], f[2], f[0] != "F"}; q.form = f[0] == "S" ? 'S' : f[0] == "B" ? 'B' : 'L'; pl.push_back(q); }
     }
     return pl;
 }
@@ -211,7 +224,7 @@ static std::vector<Placement> gen_placements(Rng& r, bool with_alias, bool allow
         if (!r.chance(0.5)) continue;
         bool cli = r.chance(0.5), file = !cli;
         if (allow_both && r.chance(0.25)) cli = file = true;
-        if (cli) pl.push_back({o.name, gen_token(r, o), true});
+        if (cli) { Placement q{o.name, gen_token(r, o), true}; if (short_form(o.name) && r.chance(0.4)) q.form = 'S'; if (std::string(o.name) == "verbose" && r.chance(0.4)) q.form = 'B'; pl.push_back(q); }
         if (file) {
             // legacy spelling in the file for the three aliased options
             std::string nm = o.name;
@@ -239,7 +252,9 @@ static std::vector<Placement> runnable_placements(Rng& r, Cfg& c, bool with_alia
         if (nm == "BunchCurrent") { size_t j = i + 2; while (j < args.size() && !starts_with(args[j], "--")) { tok += " " + args[j]; j++; } i = j - 2; }
         bool cli = r.chance(0.5);
         if (!cli && with_alias && r.chance(0.6)) for (auto& a : table()) if (a.alias_of && nm == a.alias_of) { nm = a.name; break; }
-        pl.push_back({nm, tok, cli});
+        Placement q{nm, tok, cli};
+        if (cli && short_form(nm) && r.chance(0.4)) q.form = 'S';
+        pl.push_back(q);
     }
     return pl;
 }
@@ -523,7 +538,13 @@ struct C20 : Scenario {
         if (fault == "missing") { cfg = "nothere.cfg"; }
         else if (fault == "directory") { cfg = "adir"; mkdir((rc.workdir + "/adir").c_str(), 0777); }
         else if (fault == "unreadable") { l.rt.fault_path = "parent.cfg"; l.rt.fault_kind = 1; l.rt.fault_nth = -1; l.rt.fault_errno = 13; }
-        else if (fault == "empty") { write_file(rc.workdir + "/parent.cfg", ""); expect_stop = false; std::vector<Placement> q; for (auto& p : pl) if (p.on_cli) q.push_back(p); pl = q; }
+        else if (fault == "empty") {
+            // everything moves to the command line (so that the run stays small); the config file itself is empty
+            write_file(rc.workdir + "/parent.cfg", ""); expect_stop = false;
+            std::vector<Placement> q;
+            for (auto p : pl) { const Opt* op = find_opt(p.name); if (!op || op->ignore_only) continue; if (op->alias_of) p.name = op->alias_of; bool dup = false; for (auto& e : q) if (e.name == p.name) dup = true; if (dup) continue; p.on_cli = true; q.push_back(p); }
+            pl = q;
+        }
         else if (fault == "truncated_key") { write_file(rc.workdir + "/parent.cfg", parent + "GridSi"); expect_fail_status = true; }
         else if (fault == "unknown_key") { write_file(rc.workdir + "/parent.cfg", parent + "NoSuchOption" + std::to_string(farg % 10) + "=1\n"); expect_fail_status = true; }
         else if (fault == "malformed_value" || fault == "malformed_alias") {
